@@ -119,7 +119,11 @@ pub fn filter(a: &[String]) {
     use mpd_client::filter::{Filter, Operator};
     let mut st: Vec<Filter> = Vec::new();
     let mut i = 0;
+    // `pre`: every intermediate filter is rendered once by reference and cloned before it is used further
+    let pre = a.first().map(|s| s == "pre").unwrap_or(false);
+    if pre { i = 1; }
     while i < a.len() {
+        if pre { if let Some(f) = st.pop() { let _ = mpd_protocol::command::Command::new("x").argument(&f); st.push(f.clone()); } }
         match a[i].as_str() {
             "leaf" => {
                 let op = match a[i + 2].as_str() { "Equal" => Operator::Equal, "NotEqual" => Operator::NotEqual, "Contain" => Operator::Contain,
@@ -134,7 +138,8 @@ pub fn filter(a: &[String]) {
             _ => panic!("filter op"),
         }
     }
-    let f = st.pop().unwrap();
+    let mut f = st.pop().unwrap();
+    if pre { let _ = mpd_protocol::command::Command::new("x").argument(&f); f = f.clone(); }
     let cmd = mpd_protocol::command::Command::new("find").argument(f);
     let mut c = mpd_protocol::Connection::connect(crate::Pipe { segs: vec![b"OK MPD 0.23.5\n".to_vec()], next: 0, out: Vec::new(), reads: 0 }).unwrap();
     c.send(cmd).unwrap();
